@@ -48,6 +48,8 @@ pub fn world() -> MemDb {
     db.set_storage(x, 1, 9);
     db.set_storage(x, 3, 2);
     db.accounts.get_mut(&x).unwrap().info.balance = U256::from(1000u64);
+    db.deploy(y_addr(), kit::vault());
+    db.set_storage(y_addr(), 1, 4);
     // an existing *empty* account (EIP-161 touch target)
     db.accounts.insert(e_addr(), AccountData::default());
     db
@@ -67,6 +69,7 @@ pub enum Op {
     DestroyX,
     RecreateX,
     CreateDestroyY,
+    DestroyY,
     TouchEmptyE,
     Transfer,
     Increment,
@@ -79,12 +82,13 @@ pub enum Op {
     ReadX,
 }
 
-pub const OPS: [Op; 15] = [
+pub const OPS: [Op; 16] = [
     Op::WriteX0,
     Op::ClearX3,
     Op::DestroyX,
     Op::RecreateX,
     Op::CreateDestroyY,
+    Op::DestroyY,
     Op::TouchEmptyE,
     Op::Transfer,
     Op::Increment,
@@ -112,6 +116,9 @@ impl Op {
             Op::DestroyX => tx(eoa(1), nonce1, Some(x), 0, Default::default()),
             Op::RecreateX => tx(eoa(1), nonce1, Some(contract(F1)), 2, calldata(&[word(1)])),
             Op::CreateDestroyY => tx(eoa(0), nonce0, Some(contract(F2)), 3, calldata(&[word(2)])),
+            // Y exists before the block (a destructible vault): destroy it, then create-and-destroy at
+            // the same address = Destroyed -> DestroyedAgain with no account on either side
+            Op::DestroyY => tx(eoa(1), nonce1, Some(y_addr()), 0, Default::default()),
             Op::TouchEmptyE => transfer(eoa(1), nonce1, e_addr(), 0),
             Op::Transfer => transfer(eoa(0), nonce0, eoa(1), 12345),
             _ => return None,
@@ -315,7 +322,7 @@ fn replay(spec: SpecId, base: &Arc<MemDb>, history: &[Op]) -> Result<(u64, bool)
         if pb != rb {
             return Err(format!("after op #{i} {op:?}: accumulated bundles differ: {}", crate::case::bundle_diff(&pb, &rb)));
         }
-        if matches!(op, Op::DestroyX | Op::RecreateX | Op::CreateDestroyY | Op::TouchEmptyE | Op::DrainX) {
+        if matches!(op, Op::DestroyX | Op::RecreateX | Op::CreateDestroyY | Op::DestroyY | Op::TouchEmptyE | Op::DrainX) {
             nontrivial = true;
         }
     }
